@@ -58,9 +58,10 @@ type ABurst struct {
 
 // AClient is one syslog client; after an agent restart it reconnects and continues with what it has not sent yet
 type AClient struct {
-	StartMs int      `json:"start_ms"`
-	Bursts  []ABurst `json:"bursts"`
-	TailMs  int      `json:"tail_ms"`
+	StartMs  int      `json:"start_ms"`
+	Bursts   []ABurst `json:"bursts"`
+	TailMs   int      `json:"tail_ms"`
+	HoldOpen bool     `json:"hold_open,omitempty"` // the client never closes: the connection is still open when the agent is stopped
 }
 
 // AUp scripts one upstream connection attempt (in global order of dials)
@@ -546,6 +547,9 @@ func (w *worldA) tweak(r *simrt.Rand, s *AScenario, end int) {
 			}
 		}
 		s.MemCap = r.Range(2, 8)
+		for ci := range s.Clients {
+			s.Clients[ci].HoldOpen = r.Bool(50)
+		}
 	case "c19":
 		// the equations are asserted on runs without reachable limits
 	}
@@ -681,6 +685,8 @@ type aRun struct {
 	stops                []aStop
 	notes                []string
 	stopping             bool
+	stopHung             bool
+	stopSince            time.Duration // simulated time+1 at which a stop in progress was requested; 0 when none
 	finalDeadlineHit     bool
 	lastFaultAt          time.Duration
 	reloads              []string // variants delivered
@@ -842,12 +848,18 @@ func (r *aRun) stopAgent() {
 	}
 	r.stopping = true
 	t0 := simrt.Now()
+	r.stopSince = t0 + 1
 	bug0 := strings.Count(r.logbuf.String(), "BUG:")
-	runAs(fmt.Sprintf("agent%d.stop", a.gen), a.gen, func() {
+	if !runAsWithin(fmt.Sprintf("agent%d.stop", a.gen), a.gen, 3*c18Bound(), func() {
 		a.shutIn()
 		a.orch.Shutdown()
-	})
+	}) {
+		// the stop did not return within three times the bound: the run ends here and is judged as a hung shutdown
+		r.stopHung = true
+		return
+	}
 	took := simrt.Now() - t0
+	r.stopSince = 0
 	st := aStop{Gen: a.gen, At: t0, Took: took, BugLines: strings.Count(r.logbuf.String(), "BUG:") - bug0}
 	dump := promext.DumpMetricsFrom("", true, false, r.currentLoader().GetMetricQuerier())
 	if os.Getenv("VERIF_DUMP_METRICS") != "" {
@@ -903,6 +915,9 @@ func (r *aRun) drive() {
 		case "restart":
 			r.out.fault("graceful_restart", 1)
 			r.stopAgent()
+			if r.stopHung {
+				return
+			}
 			simrt.Sleep("a.driver.restart", 100*time.Millisecond)
 			r.writeConfig("")
 			if !r.startAgent() {
@@ -965,5 +980,8 @@ func (r *aRun) drive() {
 		simrt.Sleep("a.driver.c07grace", 10*time.Second)
 	}
 	r.stopAgent()
+	if r.stopHung {
+		return
+	}
 	r.srv.stop()
 }
